@@ -47,6 +47,13 @@ def run(r: Run):
     for k in range(0, 300, 1 if thorough else 3):
         cases.append(("big", Fraction(2_000_000 + 10_000 * k), 300, rng.choice([1, -2])))
         nbig += 1
+    from . import common as _c
+    for d in _c.dict_ints(1, 400):
+        for m in (Fraction(750), Fraction(123456), Fraction(d)):
+            cases.append(("exact" if d <= 150 and m <= 100000 else "big", m, d, rng.choice([1, -2])))
+    for f in _c.DICT_FLOATS:
+        if 0 < f < 1e9:
+            cases.append(("exact" if f <= 100000 else "big", Fraction(f), 12, 1))
     lines = [f"poisson\t{fr(m)}\t{n}\t{z}" for _, m, n, z in cases]
     impl = r.impl("poisson", lines)
     # the exact model is consulted in the "exact" regime only
